@@ -1,4 +1,5 @@
 import CheetahModel.Bmadx
+import CheetahModel.BmadxJac
 /-! Driver ops for the Bmad-X kernels (per particle) and the coordinate conversions. -/
 open Scalar
 namespace DrvB
@@ -26,6 +27,7 @@ def bmadxOp (op : String) (a : Array Float) : Option (List Float) :=
       some (out (bmadxTDC k (g a 0) (g a 1) (g a 2) (g a 3) (g a 4) (g a 5) (g a 6) (vecAt a 11) (g a 10)))
   | "quadcoef" => let q := quadCoef (g a 0) (g a 1) (g a 2) eps
                   some [q.a11, q.a12, q.a21, q.a22, q.c1, q.c2, q.c3]
+  | "bdjac" => some (driftJacList (g a 0) (g a 1) (g a 2) (g a 3) (g a 4) (g a 5))           -- L p0c mc2 px py pz
   | "lowenergyz" => some [lowEnergyZ (g a 0) (g a 1) (g a 2) (g a 3)]
   | _ => none
 end DrvB
